@@ -96,8 +96,13 @@ def run(tier, replay=None):
         todo = [t for t in todo if t[0] == os.environ["VERIF_C07_FAMILY"]]
     wd = cxx.workdir("c07-" + tier)
 
+    import time
+    deadline = time.time() + (25 * 60 if quick else 75 * 60)
+
     def one(item):
         idx, (fam, desc, s, full) = item
+        if time.time() > deadline:
+            return {"fam": fam, "desc": desc, "skipped": True}
         root = os.path.join(wd, "%s_%d" % (fam, idx))
         shutil.rmtree(root, ignore_errors=True)
         sb = build.SchemaBuild(s, root)
@@ -177,7 +182,11 @@ def run(tier, replay=None):
         return res
 
     accepted = rejected = compiles = 0
-    for r in cxx.pmap(one, list(enumerate(todo))):
+    results = cxx.pmap(one, list(enumerate(todo)))
+    nskip = sum(1 for r in results if r.get("skipped"))
+    if nskip:
+        rep.cap("global deadline reached: %d of %d schemas not processed (families are processed in the order names, refcase, concat, attr, num, kinds, cli, catalogue, headers; the processed prefix is complete)" % (nskip, len(results)))
+    for r in [r for r in results if not r.get("skipped")]:
         if "harness" in r:
             rep.harness_error("%s %s: %s" % (r["fam"], r["desc"], r["harness"]))
             continue
@@ -205,7 +214,7 @@ def run(tier, replay=None):
             rep.sample({"family": r["fam"], "schema": r["desc"], "accepted": True, "compiles": r["compiles"]})
     rep.set("programs", accepted)
     rep.set("evaluations", compiles)
-    rep.set("schemas_generated", len(todo))
+    rep.set("schemas_generated", len(todo) - nskip)
     rep.set("rejected_by_sbeppc", rejected)
     rep.set("rule", "one evaluation = one TU compiled on one cell; distinct = distinct accepted schemas; schemas sbeppc rejects are only counted (C08 decides those)")
     if accepted == 0 and not rep.violations:
